@@ -47,6 +47,7 @@ func (e *Engine) step(f *frame, stp **State, b *ssa.BasicBlock, ins []guarded, i
 		}
 		f.allocs[c] = x.Block()
 		if x.Comment != "" {
+			f.namedAll[x.Comment] = append(f.namedAll[x.Comment], c)
 			if _, dup := f.named[x.Comment]; !dup || x.Comment == "rangeindex" {
 				f.named[x.Comment] = c
 			}
